@@ -6,8 +6,12 @@
    C14c  what `tabulate` stores, over ℝ: every K[i][l] is e^{-z} times a J-term partial sum of the power series of i_l,
          the derivative tables are the recurrence applied n times, and for the shipped constants no table index is out of range
    C14d  C14b and C14c joined: stored rows converge to K_l(z) from below; derivative tables of an exact row are the true
-         derivatives; the table regime evaluates the Taylor polynomial of K_l about the node -/
+         derivatives; the table regime evaluates the Taylor polynomial of K_l about the node
+   C14e  accuracy in exact arithmetic: 0 ≤ K_l ≤ 1 and |K_l^(n)| ≤ 2^n on z ≥ 0; Lagrange remainder of the table regime < 1e-14 for
+         the shipped grid; truncation error of every stored row entry is below the series accuracy (all l); end to end: the Taylor
+         value computed from the tables `tabulate` stores is within 1e-14 + 1.02·acc of e^{-z} i_l(z) -/
 import Ecpint.Props.C14
 import Ecpint.Props.C14b
 import Ecpint.Props.C14c
 import Ecpint.Props.C14d
+import Ecpint.Props.C14e
